@@ -170,7 +170,7 @@ def main():
     root = "/verif/mutants"
     import glob
     for f in glob.glob(root + "/*/*"):
-        if not os.path.basename(f).startswith(("seed-", "neutral")):
+        if not os.path.basename(f).startswith(("seed-", "neutral", "probe-")):
             os.remove(f)
     scratch = tempfile.mkdtemp(prefix="mkmut.")
     try:
